@@ -554,12 +554,18 @@ static void scn_float(int which, int vk) {
     static double dv[64], dout[64];
     size_t n = 20;
     for (size_t i = 0; i < n; i++) {
-        dv[i] = vk == 0 ? (1.5 + (double)i * 0.25) : (i % 2 ? 0.0 : 1.0 / 0.0);
+        dv[i] = vk == 0 ? (1.5 + (double)i * 0.25) : vk == 1 ? (i % 2 ? 0.0 : 1.0 / 0.0) : 0;
+        if (vk >= 2) {
+            /* mixed: special values (zero, infinity, NaN) with normal values after each of them; the normal values need
+             * few mantissa bits, so every precision reproduces them exactly */
+            dv[i] = (i % 5 == (vk == 2 ? 1 : 0)) ? (i % 3 == 0 ? 0.0 : i % 3 == 1 ? -1.0 / 0.0 : __builtin_nan("")) : (vk == 2 ? 1.0 : -3.0) * (1.5 + (double)i * 0.25) * (double)(1u << (i % 7));
+        }
     }
-    snprintf(scn_desc, sizeof scn_desc, vk == 0 ? "20 normal doubles" : "20 special doubles (0 / inf)");
+    varintFloatPrecision fprec = vk == 3 ? VARINT_FLOAT_PRECISION_HIGH : VARINT_FLOAT_PRECISION_FULL;
+    snprintf(scn_desc, sizeof scn_desc, vk == 0 ? "20 normal doubles" : vk == 1 ? "20 special doubles (0 / inf)" : vk == 2 ? "20 doubles, specials at i%%5==1 between normal values" : "20 doubles, specials at i%%5==0 between normal values, HIGH precision");
     if (which == 0) {
         FAULT_BEGIN();
-        size_t w = varintFloatEncode(ENC, dv, n, VARINT_FLOAT_PRECISION_FULL, VARINT_FLOAT_MODE_DELTA_EXPONENT);
+        size_t w = varintFloatEncode(ENC, dv, n, fprec, vk == 3 ? VARINT_FLOAT_MODE_INDEPENDENT : VARINT_FLOAT_MODE_DELTA_EXPONENT);
         FAULT_END();
         if (w) {
             size_t r = varintFloatDecode(ENC, n, dout);
@@ -568,7 +574,7 @@ static void scn_float(int which, int vk) {
             }
         }
     } else {
-        size_t w = varintFloatEncode(ENC, dv, n, VARINT_FLOAT_PRECISION_FULL, VARINT_FLOAT_MODE_COMMON_EXPONENT);
+        size_t w = varintFloatEncode(ENC, dv, n, fprec, vk == 3 ? VARINT_FLOAT_MODE_DELTA_EXPONENT : VARINT_FLOAT_MODE_COMMON_EXPONENT);
         memset(dout, 0xAB, sizeof dout);
         FAULT_BEGIN();
         size_t r = varintFloatDecode(ENC, n, dout);
@@ -855,6 +861,10 @@ static void build_scenarios(void) {
     add_sc("float.Encode", 2, 0, 1, 0);
     add_sc("float.Decode", 2, 1, 0, 0);
     add_sc("float.Decode", 2, 1, 1, 0);
+    add_sc("float.Encode", 2, 0, 2, 0);
+    add_sc("float.Encode", 2, 0, 3, 0);
+    add_sc("float.Decode", 2, 1, 2, 0);
+    add_sc("float.Decode", 2, 1, 3, 0);
     add_sc("adaptive.CountUnique/Analyze", 3, 0, 0, 0);
     add_sc("adaptive.CountUnique/Analyze", 3, 0, 6, 0);
     for (int vk = 0; vk <= 11; vk++) {
